@@ -137,7 +137,7 @@ def scan_assumptions(text):
 
 REPLAY_BIN = os.path.join(WORK, 'replay-target', 'debug', 'cachelito-replay')
 UNIT_FLAVOUR = {'global_cache': 'global', 'thread_local_cache': 'thread', 'async_cache': 'async', 'scores': 'global', 'utils': 'global'}
-DYNAMIC_UNITS = ('registry', 'scores', 'utils', 'global_cache', 'thread_local_cache', 'async_cache', 'wrappers_global', 'wrappers_thread', 'wrappers_async', 'wrappers_async_await', 'keys')
+DYNAMIC_UNITS = ('registry', 'scores', 'utils', 'global_cache', 'thread_local_cache', 'async_cache', 'wrappers_global', 'wrappers_thread', 'wrappers_async', 'wrappers_async_await', 'wrappers_global_await', 'keys')
 
 
 def build_replay():
@@ -348,21 +348,44 @@ def registration_check(prop):
             except (ExtractError, ValueError, AttributeError) as e:
                 res['undecided'].append('fixture %s: %s' % (name, e))
                 continue
-            if info['scope'] == 'thread':
-                continue
-            expected = attrs.get('name') or name
-            regs = info['registrations']
             checks = []
-            checks.append(('stats_registered_under_name', regs.get('stats_name') == expected, 'stats_registry::register(%r) vs expected %r' % (regs.get('stats_name'), expected), ['C15']))
-            cb = info['callbacks']
-            checks.append(('check_callback_registered_under_name', 'check' in cb and cb['check']['name'] == expected, 'register_invalidation_callback name %r vs expected %r' % (cb.get('check', {}).get('name'), expected), ['C13']))
-            has_meta = bool(attrs['tags'] or attrs['events'] or attrs['dependencies'])
-            if has_meta:
-                checks.append(('metadata_registered_under_name', regs.get('inval_name') == expected, 'register(%r) vs expected %r' % (regs.get('inval_name'), expected), ['C12']))
-                checks.append(('metadata_slots', regs.get('metadata') == [attrs['tags'], attrs['events'], attrs['dependencies']],
-                               'InvalidationMetadata::new(%r) vs attributes tags=%r events=%r dependencies=%r' % (regs.get('metadata'), attrs['tags'], attrs['events'], attrs['dependencies']), ['C12', 'C13']))
-                checks.append(('clear_callback_registered_under_name', 'clear' in cb and cb['clear']['name'] == expected, 'register_callback name %r vs expected %r' % (cb.get('clear', {}).get('name'), expected), ['C12']))
-            checks.append(('statics_local_to_function', info['local_statics'] >= 2, '%d cache statics declared inside the function' % info['local_statics'], ['C01', 'C12', 'C13']))
+            # configuration: every attribute arrives at the constructor of the core cache as written (limit / max_memory / ttl /
+            # policy / frequency_weight "take effect as written": the engine contracts are stated over exactly these fields)
+            a = [re.sub(r'\s+', '', x).replace('cachelito_core::', '') for x in info['ctor_args']]
+            a = [re.sub(r'^Option::<\w+>::None$', 'None', x) for x in a]
+            if len(a) >= 7:
+                want_limit = 'Some(%dusize)' % attrs['limit'] if attrs.get('limit') is not None else 'None'
+                checks.append(('limit_as_written', a[2] == want_limit, 'constructor limit argument %r vs attribute limit = %r' % (a[2], attrs.get('limit')), ['C04']))
+                mm = attrs.get('max_memory')
+                if mm is not None:
+                    mmm = re.fullmatch(r'(\d+)\s*(KB|MB|GB)', mm)
+                    want_mm = 'Some(%dusize)' % (int(mmm.group(1)) * 1024 ** {'KB': 1, 'MB': 2, 'GB': 3}[mmm.group(2)]) if mmm else ('Some(%susize)' % mm if mm.isdigit() else '?')
+                else:
+                    want_mm = 'None'
+                checks.append(('max_memory_as_written', a[3] == want_mm, 'constructor max_memory argument %r vs attribute max_memory = %r (powers of 1024)' % (a[3], mm), ['C05']))
+                want_ttl = 'Some(%du64)' % attrs['ttl'] if attrs.get('ttl') is not None else 'None'
+                checks.append(('ttl_as_written', a[5] == want_ttl, 'constructor ttl argument %r vs attribute ttl = %r' % (a[5], attrs.get('ttl')), ['C06']))
+                if attrs.get('policy') is not None:
+                    variant = {'fifo': 'FIFO', 'lru': 'LRU', 'lfu': 'LFU', 'arc': 'ARC', 'random': 'Random', 'tlru': 'TLRU'}.get(attrs['policy'], '?')
+                    # async passes the string on; EvictionPolicy::from is verified against the same table (unit policy)
+                    ok = a[4] in ('EvictionPolicy::%s' % variant, 'EvictionPolicy::from("%s")' % attrs['policy'])
+                    checks.append(('policy_as_written', ok, 'constructor policy argument %r vs attribute policy = %r' % (a[4], attrs['policy']), ['C07', 'C08']))
+                fw = attrs.get('frequency_weight')
+                want_fw = 'Some(%sf64)' % fw if fw else 'None'
+                checks.append(('frequency_weight_as_written', a[6] == want_fw, 'constructor frequency_weight argument %r vs attribute %r' % (a[6], fw), ['C08']))
+            if info['scope'] != 'thread':
+                expected = attrs.get('name') or name
+                regs = info['registrations']
+                checks.append(('stats_registered_under_name', regs.get('stats_name') == expected, 'stats_registry::register(%r) vs expected %r' % (regs.get('stats_name'), expected), ['C15']))
+                cb = info['callbacks']
+                checks.append(('check_callback_registered_under_name', 'check' in cb and cb['check']['name'] == expected, 'register_invalidation_callback name %r vs expected %r' % (cb.get('check', {}).get('name'), expected), ['C13']))
+                has_meta = bool(attrs['tags'] or attrs['events'] or attrs['dependencies'])
+                if has_meta:
+                    checks.append(('metadata_registered_under_name', regs.get('inval_name') == expected, 'register(%r) vs expected %r' % (regs.get('inval_name'), expected), ['C12']))
+                    checks.append(('metadata_slots', regs.get('metadata') == [attrs['tags'], attrs['events'], attrs['dependencies']],
+                                   'InvalidationMetadata::new(%r) vs attributes tags=%r events=%r dependencies=%r' % (regs.get('metadata'), attrs['tags'], attrs['events'], attrs['dependencies']), ['C12', 'C13']))
+                    checks.append(('clear_callback_registered_under_name', 'clear' in cb and cb['clear']['name'] == expected, 'register_callback name %r vs expected %r' % (cb.get('clear', {}).get('name'), expected), ['C12']))
+                checks.append(('statics_local_to_function', info['local_statics'] >= 2, '%d cache statics declared inside the function' % info['local_statics'], ['C01', 'C12', 'C13']))
             for label, ok, text, props in checks:
                 if prop not in props:
                     continue
